@@ -23,7 +23,17 @@ Inductive c15_case :=
            (impl : ires (list (list nat * descr))) (lat : ires lattice_obs)
 | CTree (trees : list tree_arrays) (X : list (list Z)) (impl : ires (list (list nat)))
 | CForest (K : mvctx) (trees : list tree_arrays)
-          (impl : ires (list (list nat * descr))) (lat : ires lattice_obs).
+          (impl : ires (list (list nat * descr))) (lat : ires lattice_obs)
+(* a history on ONE many-valued context object: it is mined, edited through the public setters
+   (ps.data = column, K.pattern_structures = ...), mined again, ...  The state of the model is the
+   current table: every mining step must see exactly it. *)
+| CHist (K0 : mvctx) (ops : list hist_op)
+with hist_op :=
+| HSetCol (j : nat) (col : icol)          (* K.pattern_structures[j].data = col *)
+| HSetAll (K : mvctx)                     (* K.pattern_structures = freshly assembled structures *)
+| HMine (L : nat) (ms : Q) (use_log : bool)
+        (impl : ires (list (list nat * descr))) (lat : ires lattice_obs)
+| HBinarize (impl : ires table).          (* K.binarize(): objects x binary attributes *)
 
 Definition idshuffle (l : list extent) : list extent := l.
 
@@ -69,6 +79,46 @@ Definition trees_of (arrs : list tree_arrays) : option (list tree) :=
                 | _, _ => None
                 end) (Some []) arrs.
 
+Definition sofia_mv_check (K : mvctx) (L : nat) (ms : Q) (use_log : bool)
+           (impl : ires (list (list nat * descr))) (lat : ires lattice_obs) : nat :=
+  let mu := measure_of use_log in
+  let model := sofia_mv idshuffle mu K L ms in
+  let n := mv_nobj K in
+  match impl with
+  | IOk r =>
+      let exact := use_log || tie_free_run mu n (mv_bin_attr_extents K) (eff_min_supp ms n) L in
+      let same := if exact then set_eqb pair_mv_eqb r model else true in
+      let ok := forallb (fun c => mv_is_conceptb K (fst c) (snd c)) r
+                && sofia_spec_ok n (mv_extents_spec K) ms L (map fst r)
+                && lattice_ok n (map fst r) lat in
+      code_of same ok
+  | _ => 3
+  end.
+
+Fixpoint set_nth {A} (j : nat) (x : A) (l : list A) : list A :=
+  match l, j with
+  | [], _ => []
+  | _ :: l', 0 => x :: l'
+  | y :: l', S j' => y :: set_nth j' x l'
+  end.
+
+(* MVContext.binarize(): FormalContext(list(attr_extents)).T *)
+Definition mv_binarize_table (K : mvctx) : table :=
+  map (fun g => map (fun a => nth g a false) (mv_bin_attr_extents K)) (seq 0 (mv_nobj K)).
+
+Definition hist_step (st : mvctx * nat) (op : hist_op) : mvctx * nat :=
+  let K := fst st in
+  match op with
+  | HSetCol j col => (set_nth j col K, snd st)
+  | HSetAll K' => (K', snd st)
+  | HMine L ms use_log impl lat => (K, Nat.max (snd st) (sofia_mv_check K L ms use_log impl lat))
+  | HBinarize impl =>
+      (K, Nat.max (snd st)
+                  (match impl with
+                   | IOk t => if list_eqb bool_list_eqb t (mv_binarize_table K) then 0 else 3
+                   | _ => 3 end))
+  end.
+
 Definition c15_check (c : c15_case) : nat :=
   match c with
   | CSofiaF b t L ms use_log impl lat =>
@@ -85,20 +135,7 @@ Definition c15_check (c : c15_case) : nat :=
           code_of same ok
       | _ => 3
       end
-  | CSofiaMV K L ms use_log impl lat =>
-      let mu := measure_of use_log in
-      let model := sofia_mv idshuffle mu K L ms in
-      let n := mv_nobj K in
-      match impl with
-      | IOk r =>
-          let exact := use_log || tie_free_run mu n (mv_bin_attr_extents K) (eff_min_supp ms n) L in
-          let same := if exact then set_eqb pair_mv_eqb r model else true in
-          let ok := forallb (fun c => mv_is_conceptb K (fst c) (snd c)) r
-                    && sofia_spec_ok n (mv_extents_spec K) ms L (map fst r)
-                    && lattice_ok n (map fst r) lat in
-          code_of same ok
-      | _ => 3
-      end
+  | CSofiaMV K L ms use_log impl lat => sofia_mv_check K L ms use_log impl lat
   | CTree arrs X impl =>
       match trees_of arrs, impl with
       | Some ts, IOk r =>
@@ -119,6 +156,7 @@ Definition c15_check (c : c15_case) : nat :=
           code_of (set_eqb pair_mv_eqb r (rf_concepts K ts)) ok
       | _, _ => 3
       end
+  | CHist K0 ops => snd (fold_left hist_step ops (K0, 0))
   end.
 
 Definition c15_show (c : c15_case) :=
@@ -133,4 +171,12 @@ Definition c15_show (c : c15_case) :=
       (match trees_of arrs with Some ts => tree_extents ts X | None => [] end, [], true)
   | CForest K arrs impl lat =>
       ([], match trees_of arrs with Some ts => rf_concepts K ts | None => [] end, true)
+  | CHist K0 ops =>
+      (* the concepts the model returns at every mining step, one after the other *)
+      ([], snd (fold_left (fun st op =>
+                  match op with
+                  | HMine L ms ul _ _ =>
+                      (fst (hist_step (fst st, 0) op), snd st ++ sofia_mv idshuffle (measure_of ul) (fst st) L ms)
+                  | _ => (fst (hist_step (fst st, 0) op), snd st)
+                  end) ops (K0, [])), true)
   end.
